@@ -23,7 +23,7 @@ def norm_spec_state(st):
     out = {
         "count": st["count"],
         "bound": {k: v for k, v in st["bound"].items() if v},
-        "heaps": {c: sorted(v) for c, v in st["heaps"].items()},
+        "heaps": {c: sorted(s for s in v if not st["jobs"][s - 1]["done"]) for c, v in st["heaps"].items()},
         "waiters": {w: {"on": x["on"], "box": x["box"], "chs": sorted(x["chs"]) if x["on"] else []}
                     for w, x in st["waiters"].items()},
         "running": {w: list(v) for w, v in st["running"].items()},
